@@ -198,8 +198,39 @@ def _strip_upd(k):
     return k
 
 
+def _rowview_atom(atom):
+    """`row = A[i]; row[j]` (a row view of a 2-D array handed to a helper) reads A[i, j]."""
+    if atom[0] == "sub" and _is_polykey(atom[1]) and _is_polykey(atom[2]):
+        inner = key_atom(atom[1])
+        if inner is not None and inner[0] == "sub" and _is_polykey(inner[2]):
+            ia, ja = key_atom(inner[2]), key_atom(atom[2])
+            scalar = lambda a, k: (a is not None and a[0] in ("elem", "idx", "v")) or _const_of_key(k) is not None or (a is None)
+            row = ia is not None and ia[0] in ("elem", "idx")  # the row index is a loop variable (a constant position is a tuple component)
+            if row and scalar(ja, atom[2]) and not (ja is not None and ja[0] == "slice"):
+                return ("sub", inner[1], ("tuple", inner[2], atom[2]))
+    return None
+
+
 def _stores(ex):
-    return [e for e in ex.events if e.name == "store_sub"]
+    """The subscript stores of a function, rows handed to a helper as views (`f(A[i])` ... `row[j] = v`) addressed [i, j]."""
+    from ..termflow import Event, rewrite
+
+    out = []
+    for e in ex.events:
+        if e.name != "store_sub":
+            continue
+        base, idx, val = e.args
+        ba = base.as_atom() if isinstance(base, Poly) else None
+        if ba is not None and ba[0] == "sub" and _is_polykey(ba[2]) and isinstance(idx, Poly) and _is_polykey(ba[1]):
+            ia = key_atom(ba[2])
+            if ia is not None and ia[0] in ("elem", "idx"):
+                n = Event("store_sub", [poly_from_key(ba[1]), ATuple([poly_from_key(ba[2]), idx]), rewrite(val, _rowview_atom)], {}, [rewrite(g, _rowview_atom) for g in e.guards], e.node)
+                n.guards = [rewrite(g, _rowview_atom) for g in e.guards]
+                n.full_guards = [rewrite(g, _rowview_atom) for g in e.full_guards]
+                out.append(n)
+                continue
+        out.append(e)
+    return out
 
 
 def _is_index_term(v):
@@ -257,6 +288,14 @@ def _result_positions(ex, wanted, what):
             return None
         pos[name] = hits[0]
     return pos
+
+
+class _Info(dict):
+    """What an earlier X rule worked out for the later ones; a key that is missing means that rule could not analyse the
+    code (or stopped at a violation): the dependent rule cannot proceed either — an analysis error, not a crash."""
+
+    def __missing__(self, key):
+        raise AnalysisError("C10: %r was not established by an earlier rule (it could not analyse the changed code)" % key)
 
 
 # --------------------------------------------------------------------------- X1
@@ -1098,7 +1137,7 @@ def run(ctx):
     ctx.assume("sufficiency of the premises is the max-product dynamic-programming theorem (Bellman), not decided here")
     ctx.assume("all children arrays handed to compute_log_S share one shape (samples, grid); numpy indexing semantics")
     ctx.assume("networkx DiGraph.successors(node) enumerates the same order on every call while the edge set is unchanged")
-    info = {}
+    info = _Info()
     ctx.soft(rule_X1, info)
     ctx.soft(rule_X2, info)
     ctx.soft(rule_X3, info)
